@@ -333,9 +333,85 @@ func c17Overlap(w *fw.W, idx int, r *fw.Rand) {
 	w.Note(fw.Hash64(desc))
 }
 
+// c17ReadExpr: the documented stream die "R<expr>" whose parser reads its operand with ReadExpr.
+// The handler must receive exactly the operand's text (no blank or line break that belongs to
+// what follows), once.
+func c17ReadExpr(w *fw.W, idx int, r *fw.Rand) {
+	e := r.Pick([]string{"(1+2)", "x", "[1,2][0]", "'s'", "3", "(x)", "f(1)", "1+(2)", "`t`", "{'k':1}.k", "2d1", "(1)+x"})
+	tail := r.Pick([]string{" 理由", "\t# note", "  ", "", " reason text", " 。", "  ,"})
+	pre := r.Pick([]string{"", "", "1 + ", "x = 2; ", "[", "func f(v) { v }; "})
+	post := map[string]string{"[": "]"}[pre]
+	if post != "" {
+		tail = ""
+	}
+	src := pre + "R" + e + post + tail
+	desc := fmt.Sprintf("readexpr src=%q", src)
+	w.Begin(idx, desc)
+	cfg := AllDice()
+	cfg.Seed = r.U64() | 1
+	vm := cfg.NewVM()
+	var log []string
+	_ = vm.RegCustomDiceParser(
+		func(ctx *ds.Context, stream *ds.CustomDiceStream) (*ds.CustomDiceParseResult, error) {
+			c, ok := stream.Read()
+			if !ok || c != 'R' {
+				stream.ResetAttempt()
+				return &ds.CustomDiceParseResult{Matched: false}, nil
+			}
+			expr, matched, err := stream.ReadExpr("")
+			if err != nil {
+				return nil, err
+			}
+			if !matched {
+				stream.ResetAttempt()
+				return &ds.CustomDiceParseResult{Matched: false}, nil
+			}
+			stream.Commit()
+			return &ds.CustomDiceParseResult{Groups: []string{stream.Current()}, Payload: expr, Matched: true}, nil
+		},
+		func(ctx *ds.Context, groups []string, raw any) (*ds.VMValue, string, error) {
+			log = append(log, groups[0])
+			res := raw.(*ds.VMValue).ComputedExecute(ctx, &ds.BufferSpan{})
+			if ctx.Error != nil {
+				return nil, "", ctx.Error
+			}
+			return res, groups[0], nil
+		},
+	)
+	var err error
+	pv, st := fw.Guard(func() { err = vm.Run(src) })
+	w.Eval(1)
+	w.Count("readexpr_programs", 1)
+	if pv != nil {
+		w.Violate(idx, "panic", fw.PanicKey(pv, st), desc, fmt.Sprint(pv), nil)
+		return
+	}
+	if err != nil {
+		w.Count("readexpr_rejected", 1)
+		return
+	}
+	if len(log) != 1 {
+		w.Violate(idx, "extension", "ext|readexpr|count", desc, fmt.Sprintf("handler ran %d times: %q", len(log), log), nil)
+		return
+	}
+	if got := log[0]; got != strings.TrimSpace(got) || !strings.HasPrefix(got, "R"+e[:1]) {
+		w.Violate(idx, "extension", "ext|readexpr|matched-text", desc, fmt.Sprintf("the handler received %q as the matched text (blanks or line breaks that belong to what follows)", got), nil)
+	}
+	var d string
+	fw.Guard(func() { d = vm.GetDetailText() })
+	if strings.Contains(d, " ]") || strings.Contains(d, "\t]") || strings.Contains(d, "\n]") {
+		w.Violate(idx, "extension", "ext|readexpr|detail", desc, fmt.Sprintf("process text %q carries blanks of the following text inside the operand's annotation", d), nil)
+	}
+	w.Note(fw.Hash64(desc))
+}
+
 func c17Match(w *fw.W, idx int, r *fw.Rand) {
 	if r.P(1, 20) {
 		c17Overlap(w, idx, r)
+		return
+	}
+	if r.P(1, 20) {
+		c17ReadExpr(w, idx, r)
 		return
 	}
 	n := r.Range(1, 3)
